@@ -169,11 +169,18 @@ func main() {
 	seen := map[string]bool{}
 	nviol := 0
 	unreproducible := 0
+	suppressed := 0
 	for _, v := range total.Violations {
 		if seen[v.Signature] {
 			continue
 		}
 		seen[v.Signature] = true
+		if nviol >= 40 {
+			// one broken error path shows under hundreds of signatures (every cell of the
+			// catalogue battery): 40 minimised replay files are enough to act on
+			suppressed++
+			continue
+		}
 		nviol++
 		path := filepath.Join(repDir, fmt.Sprintf("%s-%s.json", id, hash(v.Signature)))
 		vb, _ := json.MarshalIndent(v, "", " ")
@@ -202,6 +209,9 @@ func main() {
 			fmt.Printf("  NOTE: this violation reproduces only in some replays of the same file: the difference comes from a source the simulator does not control (goroutine scheduling, address order, real clock); the replay shows it statistically\n")
 		}
 		fmt.Printf("VIOLATION property=%s replay=%s\n", id, path)
+	}
+	if suppressed > 0 {
+		fmt.Printf("(%d further distinct violation signatures not listed)\n", suppressed)
 	}
 	wall := time.Since(start).Seconds()
 	if *census {
